@@ -287,16 +287,15 @@ def check_variant(r, F, G, enum, variant, rule, sents, ln, runs, unknown, bound)
            % (key, show_form(missing)))
 
 
-_SENT = {}
-
-
 def arm_sentences(F, fnm):
     import os
     bound = 4 if os.environ.get("VERIF_TIER") == "thorough" else printer.BOUND
-    key = (id(F), fnm, bound)
-    if key not in _SENT:
-        _SENT[key] = printer.arm_sentences(F, fnm, bound)
-    return _SENT[key]
+    # memo lives on the Facts object: id() values are reused once an object is collected
+    memo = F.__dict__.setdefault("_c05_sentences", {})
+    key = (fnm, bound)
+    if key not in memo:
+        memo[key] = printer.arm_sentences(F, fnm, bound)
+    return memo[key]
 
 
 def r14(F):
@@ -320,7 +319,7 @@ def r14(F):
                 r.inst("%s::%s:rule" % (enum, v), PR, False, "no parser rule is recorded for %s::%s: the check table must be extended" % (enum, v))
                 continue
             need(table[v] in G, "parser rule %s not found" % table[v])
-            sents, ln, runs, unknown, bound = arms[v]
+            sents, ln, runs, unknown, bound, _uf = arms[v]
             check_variant(r, F, G, enum, v, table[v], sents, ln, runs, unknown, bound)
     return r
 
@@ -828,7 +827,7 @@ def r17(F):
     # quoted sites
     n = 0
     for fnm in ("render_expr", "render_stmt", "render_value"):
-        for v, (sents, ln, runs, unknown, bound) in arm_sentences(F, fnm).items():
+        for v, (sents, ln, runs, unknown, bound, _uf) in arm_sentences(F, fnm).items():
             raw = set()
             q = set()
             for s, tr in sents:
